@@ -40,6 +40,11 @@ type World struct {
 	Parties  map[int]*zbls.DKG
 	MinerIDs map[int]string
 	TShares  []encryption.ThresholdSignatureScheme
+	// Published holds every party's published public polynomial ONCE (as the magic block's Mpks do): the same slices
+	// are handed to every call that takes them, and compared with their snapshot after every such call — a call must
+	// not modify what it is given.
+	Published map[int][]zbls.PublicKey
+	pubSnap   map[int]string
 	// MsgFn lets a harness give some message tokens other bytes than MsgBytes (e.g. the hash of a transaction).
 	MsgFn func(w *World, token string) ([]byte, bool)
 }
@@ -169,6 +174,48 @@ func IDOfSecret(dec string) string {
 	}
 	sk := skOf(f)
 	return encryption.Hash(sk.GetPublicKey().Serialize())
+}
+
+func mpkHex(m []zbls.PublicKey) string {
+	var b strings.Builder
+	for i := range m {
+		b.WriteString(m[i].SerializeToHexStr())
+		b.WriteByte('|')
+	}
+	return b.String()
+}
+
+// mpkOf: party j's published polynomial — one shared slice per party for the whole case.
+func (w *World) mpkOf(j int) []zbls.PublicKey {
+	if w.Published == nil {
+		w.Published, w.pubSnap = map[int][]zbls.PublicKey{}, map[int]string{}
+	}
+	if m, ok := w.Published[j]; ok {
+		return m
+	}
+	m := w.Parties[j].GetMPKs()
+	w.Published[j] = m
+	w.pubSnap[j] = mpkHex(m)
+	return m
+}
+
+func (w *World) indexOf(d *zbls.DKG) int {
+	for j, q := range w.Parties {
+		if q == d {
+			return j
+		}
+	}
+	return -1
+}
+
+// guard appends INPUT-MUTATED to an answer when a real call changed a published polynomial it was only given to read.
+func (w *World) guard(out string) string {
+	for j, m := range w.Published {
+		if mpkHex(m) != w.pubSnap[j] {
+			return out + " INPUT-MUTATED"
+		}
+	}
+	return out
 }
 
 func (w *World) sig(s string) (*bls.Sign, bool) {
@@ -389,6 +436,53 @@ func (w *World) Step(ws []string) (out string, handled bool) {
 			return "err", true
 		}
 		return showBool(r), true
+	case ws[0] == "tid" && len(ws) == 2:
+		// the id of a threshold share as a STRING: GetID, then SetID of that string on a fresh scheme object (what the
+		// multisig contract does between registration and reconstruction), read back and parsed the way SetID parses
+		i, err := strconv.Atoi(ws[1])
+		if err != nil || i < 0 || i >= len(w.TShares) {
+			return bad()
+		}
+		s1 := w.TShares[i].GetID()
+		t2 := encryption.GetThresholdSignatureScheme(encryption.SignatureSchemeBls0chain)
+		if err := t2.SetID(s1); err != nil {
+			return "err", true
+		}
+		var x bls.ID
+		if err := x.SetHexString(t2.GetID()); err != nil {
+			return "err", true
+		}
+		return "id " + x.GetDecString(), true
+	case ws[0] == "reconstructs" && len(ws) == 2:
+		// reconstruction through the string path: the share objects are rebuilt from their id STRINGS
+		rec := encryption.GetReconstructSignatureScheme(encryption.SignatureSchemeBls0chain, w.T, w.N)
+		for _, e := range splitList(ws[1]) {
+			ab := strings.Split(e, ":")
+			if len(ab) != 2 {
+				return bad()
+			}
+			i, err := strconv.Atoi(ab[0])
+			sg, ok := w.sig(ab[1])
+			if err != nil || i < 0 || i >= len(w.TShares) || !ok {
+				return bad()
+			}
+			ts := encryption.GetThresholdSignatureScheme(encryption.SignatureSchemeBls0chain)
+			if err := ts.SetID(w.TShares[i].GetID()); err != nil {
+				return "err", true
+			}
+			if err := rec.Add(ts, sg.SerializeToHexStr()); err != nil {
+				return "err", true
+			}
+		}
+		s, err := rec.Reconstruct()
+		if err != nil {
+			return "err", true
+		}
+		var sg bls.Sign
+		if err := sg.DeserializeHexStr(s); err != nil {
+			return "err", true
+		}
+		return w.PushSig(&sg), true
 	case ws[0] == "reconstruct" && len(ws) == 2:
 		rec := encryption.GetReconstructSignatureScheme(encryption.SignatureSchemeBls0chain, w.T, w.N)
 		for _, e := range splitList(ws[1]) {
@@ -451,6 +545,8 @@ func (w *World) Step(ws []string) (out string, handled bool) {
 		d.T = w.T
 		w.Parties[j] = d
 		w.MinerIDs[j] = ws[2]
+		delete(w.Published, j) // a new polynomial is published for this party
+		delete(w.pubSnap, j)
 		return fmt.Sprintf("id %s t=%d", d.ID.GetDecString(), made), true
 	case ws[0] == "share" && len(ws) == 3:
 		pj, _, ok := w.party(ws[1])
@@ -475,7 +571,7 @@ func (w *World) Step(ws []string) (out string, handled bool) {
 		if err != nil {
 			return "err", true
 		}
-		return showBool(pi.ValidateShare(pk.GetMPKs(), s)), true
+		return w.guard(showBool(pi.ValidateShare(w.mpkOf(w.indexOf(pk)), s))), true
 	case ws[0] == "recv" && len(ws) == 5:
 		pi, _, ok := w.party(ws[1])
 		pj, _, ok2 := w.party(ws[2])
@@ -510,16 +606,16 @@ func (w *World) Step(ws []string) (out string, handled bool) {
 			if !ok {
 				return bad()
 			}
-			mpks[q.ID] = q.GetMPKs()
+			mpks[q.ID] = w.mpkOf(j)
 		}
 		if err := p.AggregatePublicKeyShares(mpks); err != nil {
-			return "err", true
+			return w.guard("err"), true
 		}
-		return "ok", true
+		return w.guard("ok"), true
 	case ws[0] == "rundkg" && len(ws) == 1:
 		mpks := map[zbls.PartyID][]zbls.PublicKey{}
-		for _, q := range w.Parties {
-			mpks[q.ID] = q.GetMPKs()
+		for j, q := range w.Parties {
+			mpks[q.ID] = w.mpkOf(j)
 		}
 		for _, pi := range w.Parties {
 			for _, pj := range w.Parties {
@@ -533,10 +629,10 @@ func (w *World) Step(ws []string) (out string, handled bool) {
 			}
 			pi.AggregateSecretKeyShares()
 			if err := pi.AggregatePublicKeyShares(mpks); err != nil {
-				return "err", true
+				return w.guard("err"), true
 			}
 		}
-		return "ok", true
+		return w.guard("ok"), true
 	case ws[0] == "gpk" && len(ws) == 3:
 		p, _, ok := w.party(ws[1])
 		q, _, ok2 := w.party(ws[2])
@@ -600,11 +696,10 @@ func (w *World) Step(ws []string) (out string, handled bool) {
 		}
 		var gpk bls.PublicKey
 		for _, j := range js {
-			q, ok := w.Parties[j]
-			if !ok {
+			if _, ok := w.Parties[j]; !ok {
 				return bad()
 			}
-			mp := q.GetMPKs()
+			mp := w.mpkOf(j)
 			if len(mp) > 0 {
 				gpk.Add(&mp[0])
 			}
@@ -665,7 +760,7 @@ func (w *World) Step(ws []string) (out string, handled bool) {
 		}
 		mpks := block.NewMpks()
 		mpk := &block.MPK{ID: sos.ID}
-		for _, p := range pj.GetMPKs() {
+		for _, p := range w.mpkOf(j) {
 			mpk.Mpk = append(mpk.Mpk, p.GetHexString())
 		}
 		mpks.Mpks[sos.ID] = mpk
